@@ -1,5 +1,5 @@
 #!/venv/bin/python
-"""tools/archive_mutant.py <property> <n> <worktree> <checks...>
+"""[ARCHIVE_AS=<m>] tools/archive_mutant.py <property> <n> <worktree> <checks...>
 Confirm a sub-agent's mutation independently and keep it under /verif/seeded/<property>-<n>/ :
   1. the unmodified worktree passes the repository's tests and the demo exits 0
   2. with the patch: the tests still pass, the demo exits 1
@@ -14,7 +14,7 @@ import sys
 pid, n, wt = sys.argv[1:4]
 checks = sys.argv[4:]
 src = os.path.join(wt, "OUT", n)
-dst = "/verif/seeded/%s-%s" % (pid, n)
+dst = "/verif/seeded/%s-%s" % (pid, os.environ.get("ARCHIVE_AS", n))   # ARCHIVE_AS: number under seeded/ when it differs from OUT/<n>
 PY = "/venv/bin/python"
 TEST = [PY, "-m", "pytest", "-q", "-p", "no:cacheprovider", "tests", "demo", "--deselect",
         "tests/test_config.py::TestDefaultCodeFilter::test_excludes_site_packages"]
